@@ -930,20 +930,35 @@ func (m *Model) ruleERROVERWRITE(r *Results) {
 					return false
 				}
 				seen := map[int]bool{}
-				var visit func(b *ssa.BasicBlock, from int)
-				visit = func(b *ssa.BasicBlock, from int) {
+				// (a block that only joins the operands of && / || and branches on the result is entered
+				// with a known outcome from a predecessor that contributes a constant: follow only that edge)
+				var visit func(b *ssa.BasicBlock, from int, via *ssa.BasicBlock)
+				visit = func(b *ssa.BasicBlock, from int, via *ssa.BasicBlock) {
 					if hit != nil || scan(b, from) {
 						return
 					}
+					var forced *ssa.BasicBlock
+					if via != nil {
+						for i, p := range b.Preds {
+							if p == via {
+								if f, ok := constBoolOutcome(b, i); ok {
+									forced = f
+								}
+							}
+						}
+					}
 					for _, s := range b.Succs {
-						if c.edges[edge{b.Index, s.Index}] || seen[s.Index] {
+						if forced != nil && s != forced {
+							continue
+						}
+						if c.edges[edge{b.Index, s.Index}] || (seen[s.Index] && forced == nil) {
 							continue
 						}
 						seen[s.Index] = true
-						visit(s, 0)
+						visit(s, 0, b)
 					}
 				}
-				visit(st.Block(), indexIn(st.Block(), st)+1)
+				visit(st.Block(), indexIn(st.Block(), st)+1, nil)
 				key := fmt.Sprintf("%s / error stored in %s", m.declName(fn), cellName(cell))
 				if hit != nil {
 					r.bad(rule, key, m.instrPos(st), "the error stored here can be overwritten (at %s) before it has been examined or used: a failure of this step is silently replaced by the outcome of a later one", m.instrPos(hit))
